@@ -337,8 +337,13 @@ def check_bracket_strings(res: Dict[str, Any], first: str) -> None:
                                                             f'qnmatch({name!r}, {pat!r}) is {got}, fnmatch says {want}', {'kind': 'set', 'pattern': pat, 'name': name}))
 
 
+PATTERN_TOKENS = ['a', 'b', '.', '*', '**', '?', '[a]', '[!a]', '[ab]', '[!ab]', '[b]', '[!b]', '[]a]', '[!]a]']       # (ranges are judged against fnmatch in the set jobs)
+
+
 def jobs(tier: str) -> Iterable[Tuple[str, Any]]:
     yield ('match:sets<=3', ('sets',))
+    for t in PATTERN_TOKENS:
+        yield ('match:token-patterns<=3', ('tokpat', t))
     for first in 'ab][!-^':
         yield ('match:bracket-strings<=5', ('brackets', first))
     plen = 5 if tier == 'quick' else 7
@@ -365,6 +370,31 @@ def run_job(job: Any, tier: str) -> Dict[str, Any]:
     kind = job[0]
     if kind == 'brackets':
         check_bracket_strings(res, job[1])
+        return res
+    if kind == 'tokpat':
+        # patterns as sequences of <= 3 TOKENS (so that two or three character sets, negated or not, meet in one pattern)
+        from pydoctor.qnmatch import qnmatch
+        names = valid_names(4)
+        rest = [''] + PATTERN_TOKENS
+        nontriv = 0
+        for t2 in rest:
+            for t3 in (rest if t2 else ['']):
+                pat = job[1] + t2 + t3
+                toks = tokenize(pat)
+                if toks is None:
+                    continue
+                acc = 0
+                for name in names:
+                    got = qnmatch(name, pat)
+                    want = ref_match(toks, name)
+                    res['evals'] += 1
+                    acc += bool(want)
+                    if got != want:
+                        kinds = '+'.join(sorted({t[0] + ('!' if t[0] == 'set' and t[1] else '') for t in toks}))
+                        res['violations'].append(core.violation(f'match/{kinds}/tokens', f'qnmatch({name!r}, {pat!r}) is {got}, the manual says {want}', {'kind': 'match', 'pattern': pat, 'name': name}))
+                if 0 < acc < len(names):
+                    nontriv += 1
+        res['nontrivial_count'] = nontriv
         return res
     if kind == 'match':
         from pydoctor.qnmatch import qnmatch
